@@ -68,7 +68,7 @@ def in_band(case):
 
 def load_known():
     out = {}
-    for name in ("known_findings.json", "known_findings_C11.json"):
+    for name in ("known_findings.json",):
         p = cm.VERIF / name
         if p.exists():
             for e in json.loads(p.read_text())["entries"]:
@@ -135,27 +135,49 @@ def ellipsoid_newton_scale(case):
     return out
 
 
-def known_id(case, r):
-    """id of the C11 known finding whose predicate the input satisfies, else None"""
+def known_id(case, r, det=None):
+    """id of the C11 known finding that explains this optimality failure, else None.
+    Every entry needs (a) the input class of the entry, (b) that the binary64 model Model/DistPrim*.v -- which is a
+    transliteration of the code as it is, defects included -- reproduces the implementation's result on this input
+    (so a NEW defect in the same arm, which the model does not have, is not swallowed), and (c) where it can be
+    said, the signature of the defect itself in the failing result."""
     fn = case["fn"]
+    agrees = r.get("_model_agrees") is True
+    L = pl.scale_L(case["A"], case["B"])
     if fn in ("line_to_circle", "line_segment_to_circle"):
         m0 = r.get("m0sq")
         if m0 is None:
             m0 = circle_m0sqr(case)
         if 0.0 < m0 < 1e-20:
-            return "F23"          # parallel to the normal up to rounding, exact `> 0.0` test
-    if fn == "line_segment_to_circle":
-        if r.get("on_line") is False:
-            return "F10"          # endpoint clamp arm taken
-    # FD1 (plane_to_hull shallow crossing) and F8 (s_hat) are FIXED in /repo (e4c9460, df96822): no routing any more
-    if fn == "point_to_ellipsoid" and ellipsoid_newton_scale(case) < 1e-8:
+            return "F23"          # parallel to the normal up to rounding, exact `> 0.0` test (the float model divides by
+                                  # the same 1e-33 and may differ: no model condition here)
+    if fn == "line_segment_to_circle" and agrees and r.get("on_line") is False:
+        # F10: the clamp arm was taken (the segment end point next to the line's global minimiser is reported) AND the
+        # closer pair that refutes the result sits at ANOTHER point of the segment (an interior local minimum of the line
+        # function, or the other end): the defect is exactly that those candidates are never looked at
+        if det is None or "a" not in det:
+            return None
+        d, p1, p2 = c10.result_points(case, r)
+        if math.dist(det["a"], p1) > 1e-6 * L:
+            return "F10"
+        return None
+    if fn == "point_to_ellipsoid" and agrees and ellipsoid_newton_scale(case) < 1e-8:
         return "FD6"              # small ellipsoid: the absolute test |s| < 1e-16 stops Newton's method at once
-    if fn == "disk_to_disk":
+    if fn == "disk_to_disk" and agrees:
         cls = disk_class(case)
+        d, p1, p2 = c10.result_points(case, r)
         if cls == "general":
-            return "F11"          # non-parallel disks: alternating projection arm
+            # F11: the alternating projection stopped although its own next round still decreases the distance
+            a = pl.fproj(case["A"], p2)
+            b = pl.fproj(case["B"], a)
+            if math.dist(a, b) < d - 1e-13 * L:
+                return "F11"
+            return None
         if cls == "coplanar" and math.dist(case["A"]["c"], case["B"]["c"]) < case["A"]["r"] + case["B"]["r"]:
-            return "F22"
+            # F22: the returned d is the norm |(c2 - r2 u) - (c1 + r1 u)| = r1 + r2 - |c1 - c2| of the special case
+            if abs(d - (case["A"]["r"] + case["B"]["r"] - math.dist(case["A"]["c"], case["B"]["c"]))) <= 1e-9 * L:
+                return "F22"
+            return None
     return None
 
 
@@ -260,6 +282,7 @@ def run(tier, seed, replay=None):
         R.proof_broken.append("Props/C11.v missing")
     c10.theorem_coverage(R, PID)
 
+    pl.TINY_NZ = "FD8" in c10.load_known()
     cases = c10.load_cases(replay, R.rng, tier)
     n_gen = len(cases)
     if not replay:
@@ -340,7 +363,7 @@ def run(tier, seed, replay=None):
             R.sample(dict(fn=c["fn"], stream=c["stream"], A=c["A"], B=c["B"], d=d))
     unknown = 0
     for c, r, det in fails:
-        kid = known_id(c, r)
+        kid = known_id(c, r, det)
         if kid and kid in known:
             R.known_finding(kid, known[kid]["what"])
         else:
@@ -374,8 +397,9 @@ def run(tier, seed, replay=None):
             res2, _ = c10.run_impl_cases(PID, extra, tag="search")
             R.cov["search_evaluations"] = len(extra)
             for c, r in zip(extra, res2):
+                r.setdefault("_model_agrees", True)      # not run through the model: class predicates only
                 v, det = judge(c, r, R.rng)
-                if v == "fail" and not (known_id(c, r) in known):
+                if v == "fail" and not (known_id(c, r, det) in known):
                     R.failure(f"{c['fn']}: returned d = {det['d']:.9g} but a pair at distance {det['closer']:.9g} exists ({det['how']})",
                               c, site=c["fn"])
                     break
